@@ -255,11 +255,21 @@ def r3(ctx):
                         if v.endswith("parse_args()"):
                             return "cli"
             return None
-        args_first = ns_kind(files[0].args[0]) == "cli"
-        env_second = ns_kind(files[1].args[0]) == "env"
-        n0, n1, n2 = (nodes_with(f, x) for x in files[:3])
-        excl = not any(b in g.reachable([a], follow_exc=False) for a in n0 for b in n1 + n2) and not any(b in g.reachable([a], follow_exc=False) for a in n1 for b in n2)
-        ctx.check("C16.R3", args_first and env_second and excl, key(f, "file-location"), site(f, files[0]), "the configuration file location is not chosen as CLI -c > GUNICORN_CMD_ARGS -c > ./gunicorn.conf.py (exactly one file)",
+        kinds3 = [ns_kind(x.args[0]) for x in files]
+        by = dict((k, x) for k, x in zip(kinds3, files))
+        nodes3 = dict((k, nodes_with(f, x)) for k, x in by.items())
+        complete = set(kinds3) == {"cli", "env", None} and len(files) == 3
+        excl = complete and not any(b in g.reachable([a], follow_exc=False) for ka in nodes3 for kb in nodes3 if ka != kb for a in nodes3[ka] for b in nodes3[kb])
+        # precedence: the env file is loaded only when the CLI named none; the default only when neither did
+        prec = False
+        if complete:
+            def cfgtest(kind):
+                return [t for t in g.tests() if ns_kind(t.ast) == kind]
+            tc, te = cfgtest("cli"), cfgtest("env")
+            prec = bool(tc) and bool(te) and all(n not in g.reachable([(t, "true")], follow_exc=False) for t in tc for n in nodes3["env"] + nodes3[None]) and \
+                all(n not in g.reachable([(t, "true")], follow_exc=False) for t in te for n in nodes3[None]) and \
+                all(n in g.reachable([(t, "true")], follow_exc=False) for t in tc for n in nodes3["cli"]) and all(n in g.reachable([(t, "true")], follow_exc=False) for t in te for n in nodes3["env"])
+        ctx.check("C16.R3", complete and excl and prec, key(f, "file-location"), site(f, files[0]), "the configuration file location is not chosen as CLI -c > GUNICORN_CMD_ARGS -c > ./gunicorn.conf.py (exactly one file)",
                   "one file: cli > env > default")
     else:
         ctx.bad("C16.R3", key(f, "file-location"), site(f), "expected three alternative config-file loads (cli, env, default), found %d" % len(files))
